@@ -298,3 +298,19 @@ func (s *Sim) ByzLeaderMsg(i int, phase lib.Phase, view VR, qc *lib.QuorumCertif
 	}
 	return out
 }
+
+// ByzPlantPartialQC: validator i (leader or not) sends the replicas in `to` a leader-style message — header phase
+// certPhase+1, the given view — whose certificate has exactly that view with phase certPhase, a payload nobody proposed,
+// and only i's own signature. CheckProposerMessage files it as a partial QC before any leader-identity check.
+func (s *Sim) ByzPlantPartialQC(i int, view VR, certPhase lib.Phase, to []int) []*Envelope {
+	n := s.Nodes[i]
+	blk, res := s.newBlock(fmt.Sprintf("byz-partial-%d", i))
+	id := s.BlockID(n.B.BlockToHash(blk), res.Hash())
+	v := s.ByzVote(i, certPhase, view, id, i, i)
+	s.Take(func(e *Envelope) bool { return e == v })
+	qc := s.ByzCertForCommittee([]*bft.Message{v.Msg}, view.Root)
+	if qc == nil {
+		return nil
+	}
+	return s.ByzLeaderMsg(i, certPhase+1, view, qc, to)
+}
